@@ -95,8 +95,11 @@ Definition push_int (n : N) : bytes :=
 Inductive instr := IPush (d : bytes) | IOp (op : N).
 Inductive nxt := NEnd | NBad | NIns (i : instr) (rest : bytes).
 
+(** the length is compared in binary before any unary count is formed (a PUSHDATA4 length can
+    be 2^32 - 1) *)
 Definition take_push (n : N) (r : bytes) : nxt :=
-  match take (N.to_nat n) r with Some (d, r') => NIns (IPush d) r' | None => NBad end.
+  if lenN r <? n then NBad
+  else match take (N.to_nat n) r with Some (d, r') => NIns (IPush d) r' | None => NBad end.
 
 Definition next_instr (s : bytes) : nxt :=
   match s with
